@@ -292,9 +292,35 @@ def t_simult(rng):
     return dict(text=text, monoms=[({"x": 1}, 1), ({"y": 1}, 2)], feats=["simultaneous"], max_order=3)
 
 
+def t_normal_mix(rng):
+    p = _p(rng)
+    m, v = rng.randint(-1, 2), rng.choice([1, 4, F(1, 4)])
+    text = f"x = 1\nwhile true:\n    u = Normal({m}, {fs(v)})\n    x = x + u {{{fs(p)}}} x - 1\nend\n"
+    return dict(text=text, monoms=[({"x": 1}, None)], feats=["continuous-normal"])
+
+
+def t_uniform_coin(rng):
+    p = _p(rng)
+    hi = rng.randint(1, 3)
+    text = f"x = 0\nwhile true:\n    u = Uniform(0, {hi})\n    v = Bernoulli({fs(p)})\n    x = x + u*v\nend\n"
+    return dict(text=text, monoms=[({"x": 1}, None)], feats=["continuous-uniform"])
+
+
+def t_beta_contraction(rng):
+    a, b = rng.randint(1, 3), rng.randint(1, 3)
+    text = f"x = 0\nwhile true:\n    u = Beta({a}, {b})\n    x = x/2 + u**2\nend\n"
+    return dict(text=text, monoms=[({"x": 1}, None)], feats=["continuous-beta"], max_order=3)
+
+
+def t_truncnormal(rng):
+    lo, hi = rng.choice([(-1, 2), (0, 1), (-2, 2)])
+    text = f"x = 0\nwhile true:\n    u = TruncNormal(0, 1, {lo}, {hi})\n    x = x + u\nend\n"
+    return dict(text=text, monoms=[({"x": 1}, None)], feats=["continuous-truncnormal"], max_order=3)
+
+
 TEMPLATES = [t_walk_pos, t_walk3, t_walk_sym, t_bern_sum, t_du_sum, t_geometric, t_mult, t_categorical, t_dependent,
              t_if_branch, t_reset, t_du_square, t_two_coins, t_halving, t_symbolic_p, t_underscore, t_mixed_draws,
-             t_sign_flip, t_shift_scale, t_simult]
+             t_sign_flip, t_shift_scale, t_simult, t_normal_mix, t_uniform_coin, t_beta_contraction, t_truncnormal]
 
 
 def _goals_for(rng, monom, lb, tier, max_order):
@@ -334,7 +360,8 @@ def template_case(cs, tier, idx):
     goals = _goals_for(rng, monom, lb, tier, min(d.get("max_order", 6), 4 if tier == "quick" else 6))
     return {"id": f"prog-{t.__name__}-{cs}", "kind": "prog", "src": "template", "template": t.__name__, "text": d["text"],
             "monom": monom, "goals": goals, "N": N, "params": {k: fe(v) for k, v in d.get("params", {}).items()},
-            "inits": {}, "features": d["feats"], "cli": d.get("cli", idx % 3 == 0), "at_n": rng.randint(0, N)}
+            "inits": {}, "features": d["feats"], "cli": d.get("cli", idx % 3 == 0), "at_n": rng.randint(0, N),
+            "compact": rng.random() < 0.3}
 
 
 def generated_case(cs, tier, idx):
